@@ -3,10 +3,12 @@
 from __future__ import annotations
 
 import ast
+import re
 
 from ..cfg import cfg_of
 from ..model import AnalysisError, call_name, calls_in, dotted, norm, walk_no_nested
-from .. import rules, sfdl
+from .. import inline, rules, sfdl
+from .. import conds as cnd
 from . import c03
 
 META = {
@@ -58,28 +60,36 @@ def check_tokenizer(ctx):
            "the comment start is subject to an extra condition (e.g. only at a token boundary): `< ALCD# code` keeps '#...' in the name or is rejected although the documentation says a comment starts at '#'", key="comment-start", where=f.where)
     ends = [n for n in cfg.real_nodes() if isinstance(n.ast, ast.Assign) and norm(n.ast.targets[0]) == "in_comment" and norm(n.ast.value) == "False"]
     ends = [n for n in ends if cfg.path_exists(R, n)]
-    ok = len(ends) == 1 and any(norm(t) == f"{cv} in self.comment_end_chars" and v for t, v in cfg.dominating_conditions(ends[0]))
+    ok = len(ends) == 1 and cnd.holds(cfg, ends[0], f"{cv} in self.comment_end_chars")
+    if not ends:
+        # `in_comment = char not in self.comment_end_chars` inside the comment branch
+        ends = [n for n in cfg.real_nodes() if isinstance(n.ast, ast.Assign) and norm(n.ast.targets[0]) == "in_comment" and cnd.canon(n.ast.value, True) == {(f"{cv} in self.comment_end_chars", False)} and cnd.holds(cfg, n, "in_comment")]
+        ok = len(ends) == 1
     ctx.ob("C19.G1", q, ok, "a comment ends at the line break" if ok else "comments do not end at the line break", key="comment-end", where=f.where)
     ok = repo.const("SFDLTokenizer", "comment_start_chars") == "#" and set(repo.const("SFDLTokenizer", "comment_end_chars")) == {"\n", "\r"} and repo.const("SFDLTokenizer", "operators") == "<>"
     ctx.ob("C19.G1", "SFDLTokenizer", ok, "alphabet: '#' comment, line-break end, '<' '>' operators" if ok else "tokenizer alphabet constants deviate from the documented syntax", key="alphabet", where=repo.cls("SFDLTokenizer").where)
     g = repo.method("SFDLTokenizer", "_get_char", inherited=False)
     ok = any(call_name(c) == "self._source.read" and [norm(a) for a in c.args] == ["1"] for c in calls_in(g.node))
     ctx.ob("C19.G1", g.qualname, ok, "_get_char reads one character" if ok else "_get_char does not read one character", where=g.where)
-    # expectations raise
+    # expectations: a step can end normally only if what it expects was found (otherwise it raises)
+    avail = (r"^elements\.available$", True)
     for mname, expectations in (
-        ("_process_opening_token", ["not elements.available", "opening_value != '<'"]),
-        ("_process_item_token", ["not elements.available"]),
-        ("_process_closing_token", ["not elements.available", "closing_value != '>'"]),
-        ("_process_data_item_token", ["item is None"]),
-        ("_process_list_item_token", ["not elements.available", "not elements.available or elements.peek()[0] not in '<>'"]),
+        ("_process_opening_token", [("an element is available", avail), ("the element is '<'", (r"^\w+ == '<'$", True))]),
+        ("_process_item_token", [("an element is available", avail)]),
+        ("_process_closing_token", [("an element is available", avail), ("the element is '>'", (r"^\w+ == '>'$", True))]),
+        ("_process_data_item_token", [("the name is a catalogued data item", (r"^(\w+|getattr\(data_items, \w+, None\)) is None$", False))]),
+        ("_process_list_item_token", [("an element is available", avail), ("the next element is a bracket", (r"^(elements\.peek\(\)\[0\]|\w+) in '<>'$", True))]),
     ):
         m = repo.method("SFDLTokenizer", mname, inherited=False)
         ctx.touch(m)
-        mcfg = cfg_of(m.node)
-        for exp in expectations:
-            tests = [n for n in mcfg.nodes if n.kind == "test" and norm(n.ast) == exp]
-            ok = bool(tests) and all(not mcfg.path_exists(rules.branch_marker(t, "true"), mcfg.exit, no_exc=True) for t in tests)
-            ctx.ob("C19.G1", m.qualname, ok, f"`{exp}` always raises SFDLParseError" if ok else f"the expectation `{exp}` is missing or can fall through without raising: a malformed definition is silently accepted", key=exp, where=m.where)
+        mfn = inline.expanded(ctx, m, keep={"_process_tokens", "_process_data_item_token", "_process_list_item_token"})
+        mcfg = cfg_of(mfn)
+        exits = [x for x in mcfg.exit.pred]
+        ctx.require(bool(exits), f"{m.qualname}: no normal exit found")
+        for label, (pat, pol) in expectations:
+            ok = all(any(re.match(pat, t) and p == pol for t, p in cnd.facts(mcfg, x, fn=mfn) | cnd.facts(mcfg, x)) for x in exits)
+            ctx.ob("C19.G1", m.qualname, ok, f"the step ends normally only if {label} (otherwise SFDLParseError)" if ok else
+                   f"the step can end normally although not ({label}): the expectation is missing or falls through without raising, so a malformed definition is silently accepted", key=label, where=m.where)
     di = repo.method("SFDLTokenizer", "_process_data_item_token", inherited=False)
     ok = any(call_name(c) == "getattr" and norm(c.args[0]) == "data_items" and len(c.args) == 3 and norm(c.args[2]) == "None" for c in calls_in(di.node))
     ctx.ob("C19.G1", di.qualname, ok, "item names are looked up in the data item catalogue" if ok else "item names are not looked up with getattr(data_items, name, None)", key="lookup", where=di.where)
@@ -92,7 +102,7 @@ def check_tokenizer(ctx):
     lcfg = cfg_of(lt.node)
     heads = [n for n in lcfg.nodes if n.kind == "test" and n.label == "while"]
     rec = [n for n in lcfg.real_nodes() if any(c == "self._process_tokens" for c in n.call_names())]
-    ok = len(rec) == 1 and any(norm(n.ast) == "elements.peek()[0] == '>'" for n in lcfg.nodes if n.kind == "test")
+    ok = len(rec) == 1 and any(rules.expand(lt.node, n.ast) == "elements.peek()[0] == '>'" for n in lcfg.nodes if n.kind == "test")
     ctx.ob("C19.G1", lt.qualname, ok, "a list body is a sequence of elements ended by '>' (each recursion consumes its element)" if ok else "list members are not read until the closing '>'", key="list-loop", where=lt.where)
     el = repo.method("_SFDLElementList", "pop", inherited=False)
     ok = [norm(s) for s in rules.func_stmts(el.node)] == ["return self._items.pop(0)"]
@@ -120,7 +130,7 @@ def check_generate(ctx):
             if isinstance(c.func, ast.Attribute) and c.func.attr == "append" and norm(c.func.value) in returned and c.args and isinstance(c.args[0], ast.Name) and c.args[0].id in tainted:
                 name_appends.append(n)
     gcfg = cfg_of(gen.node)
-    disc = [n for n in gcfg.nodes if n.kind == "test" and "len(" in norm(n.ast) and "== 1" in norm(n.ast)]
+    disc = [n for n in gcfg.nodes if n.kind == "test" and any(re.match(r"^len\(.*\) == 1$", t) for t, _ in cnd.canon(n.ast, True))]
     ctx.require(len(disc) >= 1, "generate: record-vs-array discriminator `len(...) == 1` not found")
     discounts = any("isinstance" in norm(d.ast) or "str" in norm(d.ast) for d in disc)
     ok = not name_appends or discounts
@@ -129,10 +139,10 @@ def check_generate(ctx):
            key="name-counted", where=gen.where)
     rets = {}
     for n in gcfg.real_nodes():
-        if isinstance(n.ast, ast.Return) and cfg_of(gen.node).dominating_conditions(n):
-            for t, v in gcfg.dominating_conditions(n):
-                if t is disc[0].ast:
-                    rets[v] = norm(n.ast.value)
+        if isinstance(n.ast, ast.Return):
+            for t, pol in cnd.facts(gcfg, n):
+                if re.match(r"^len\(.*\) == 1$", t):
+                    rets[pol] = norm(n.ast.value)
     ok = rets.get(True) == "Array(data_format[0])" and rets.get(False) == "List(data_format)"
     ctx.ob("C19.P1", gen.qualname, ok, "one member => Array of that member, several => List (record)" if ok else f"shape mapping is {rets}", key="mapping", where=gen.where)
     # scope of names
@@ -141,12 +151,19 @@ def check_generate(ctx):
     ctx.ob("C19.P2", g.qualname, ok, "a list hands only its own name to its members" if ok else
            f"the recursive call passes `{norm(recs[0].args[1]) if recs and len(recs[0].args) > 1 else '?'}`, which can be the name inherited from the parent: the name travels down to grandchildren and replaces their documented key (DATA / item name)", key="name-scope", where=g.where)
     # rejection in the generator
-    for f, expectations in ((g, ["opening_token.value != '<'", "not tokenizer.tokens.available or tokenizer.tokens.peek().value not in '<>'"]), (gi, ["item is None", "not tokenizer.tokens.available", "closing_token.value != '>'"])):
+    tok = r"(tokenizer\.tokens|\w+)"
+    for f, expectations in (
+        (g, [("the element opens with '<'", (r"^\w+\.value == '<'$", True)), ("a token is available", (rf"^{tok}\.available$", True)), ("the next token is a bracket", (rf"^{tok}\.peek\(\)\.value in '<>'$", True))]),
+        (gi, [("the name is a catalogued data item", (r"^(\w+|getattr\(.*\)) is None$", False)), ("a token is available", (rf"^{tok}\.available$", True)), ("the element closes with '>'", (r"^\w+\.value == '>'$", True))]),
+    ):
         fcfg = cfg_of(f.node)
-        for exp in expectations:
-            tests = [n for n in fcfg.nodes if n.kind == "test" and norm(n.ast) == exp]
-            ok = bool(tests) and all(not fcfg.path_exists(rules.branch_marker(t, "true"), fcfg.exit, no_exc=True) for t in tests)
-            ctx.ob("C19.G1", f.qualname, ok, f"`{exp}` always raises" if ok else f"the expectation `{exp}` is missing or does not raise", key=exp, where=f.where)
+        exits = list(fcfg.exit.pred)
+        ctx.require(bool(exits), f"{f.qualname}: no normal exit")
+        for k, (label, (pat, pol)) in enumerate(expectations):
+            # the list-body expectations apply to the exits of the list branch (a data item is delegated to the item step)
+            scope = [x for x in exits if not (f is g and k > 0 and isinstance(x.ast, ast.Return) and isinstance(x.ast.value, ast.Call) and call_name(x.ast.value) == "_generate_item_from_sfdl")]
+            ok = bool(scope) and all(any(re.match(pat, t) and p == pol for t, p in cnd.facts(fcfg, x, fn=f.node) | cnd.facts(fcfg, x)) for x in scope)
+            ctx.ob("C19.G1", f.qualname, ok, f"the generator step ends normally only if {label}" if ok else f"the generator step can end normally although not ({label}): the expectation is missing or does not raise", key=label, where=f.where)
     # fresh tokenizer per call, nothing cached
     mod = repo.module("secsgem.secs.variables.functions")
     cached = []
@@ -162,42 +179,51 @@ def check_generate(ctx):
            f"tokenizers are cached/shared ({cached or 'no SFDLTokenizer(data_format) per call'}): the token cursor is shared state, so two callers reading the same definition at the same time get wrong structures", key="fresh-tokenizer", where="secsgem/secs/variables/functions.py")
 
 
+REF_KEYS = {
+    "_generate": """
+def _generate(self, data_format):
+    if data_format is None:
+        return None
+    result_data = OrderedDict()
+    for item in data_format:
+        if isinstance(item, str):
+            self.name = item
+            continue
+        item_value = generate(item)
+        if isinstance(item_value, Array):
+            result_data[item_value.name] = item_value
+        elif isinstance(item_value, List):
+            result_data[List.get_name_from_format(item)] = item_value
+        elif isinstance(item_value, Base):
+            result_data[item_value.name] = item_value
+        else:
+            raise TypeError()
+    return result_data
+""",
+    "get_name_from_format": """
+def get_name_from_format(data_format):
+    if not isinstance(data_format, list):
+        raise TypeError()
+    if isinstance(data_format[0], str):
+        return data_format[0]
+    return "DATA"
+""",
+}
+
+
 def check_keys(ctx):
     repo = ctx.repo
     f = repo.method("List", "_generate", inherited=False)
     ctx.touch(f)
-    cfg = cfg_of(f.node)
-    loops = [n for n in cfg.nodes if n.kind == "iter" and norm(n.ast.iter) == f.node.args.args[1].arg]
-    ctx.require(len(loops) == 1, "List._generate: member loop not found")
-    L = loops[0]
-    stores = [n for n in cfg.real_nodes() if isinstance(n.ast, ast.Assign) and norm(n.ast.targets[0]).startswith("result_data[")]
-    per = cfg.loop_iteration_counts(L, lambda n: n in stores, no_exc=True)
-    conts = [n for n in cfg.real_nodes() if isinstance(n.ast, ast.Continue)]
-    name_branch = all(any(norm(t) == "isinstance(item, str)" and v for t, v in cfg.dominating_conditions(c)) for c in conts) and len(conts) == 1
-    ok = "next" in per and per["next"][1] == 1 and name_branch
-    # iterations that store nothing must be the name branch or raise
-    silent = cfg.path_exists(rules.branch_marker(L, "true"), L, avoid=stores + conts)
-    ctx.ob("C19.P2", f.qualname, ok and not silent, "each member gets exactly one key; only the list name is skipped; anything else raises" if (ok and not silent) else f"keys stored per member: {per}; a member can pass without a key: {silent}", key="one-key", where=f.where)
-    keymap = {}
-    for s in stores:
-        for t, v in cfg.dominating_conditions(s):
-            if v and isinstance(t, ast.Call) and call_name(t) == "isinstance" and norm(t.args[0]) == "item_value":
-                keymap[norm(t.args[1])] = norm(s.ast.targets[0])
-    want = {"Array": "result_data[item_value.name]", "List": "result_data[List.get_name_from_format(item)]", "Base": "result_data[item_value.name]"}
-    ok = keymap == want
-    ctx.ob("C19.P2", f.qualname, ok, "array member -> its name, record member -> explicit name or DATA, data item -> its name" if ok else f"key dispatch is {keymap}", key="dispatch", where=f.where)
-    order = [norm(t.args[1]) for n in cfg.nodes if n.kind == "test" for t in [n.ast] if isinstance(t, ast.Call) and call_name(t) == "isinstance" and norm(t.args[0]) == "item_value"]
-    ok = order == ["Array", "List", "Base"]
-    ctx.ob("C19.P2", f.qualname, ok, "Array and List are tested before the generic Base (they are subclasses of it)" if ok else f"isinstance order {order}", key="order", where=f.where)
-    ok = any(isinstance(n.ast, ast.Raise) for n in cfg.real_nodes())
-    ctx.ob("C19.P2", f.qualname, ok, "an unsupported member raises" if ok else "an unsupported member is silently dropped", key="raises", where=f.where)
+    from . import _codec
+
+    _codec.agree(ctx, "C19.P2", f, REF_KEYS["_generate"], {
+        "stores": "each member gets exactly one key - an array its own name, a record its explicit name or DATA, a data item its name (Array and List are tested before the generic Base); only the list name is skipped",
+        "raises": "an unsupported member raises",
+        "returns": "the generated members are returned in definition order",
+    }, key_prefix="keys ")
     gn = repo.method("List", "get_name_from_format", inherited=False)
-    ctx.touch(gn)
-    gcfg = cfg_of(gn.node)
-    rets = {norm(n.ast.value): [(norm(t), v) for t, v in gcfg.dominating_conditions(n)] for n in gcfg.real_nodes() if isinstance(n.ast, ast.Return)}
-    p = gn.node.args.args[0].arg
-    ok = rets.get(f"{p}[0]") == [(f"not isinstance({p}, list)", False), (f"isinstance({p}[0], str)", True)] and "'DATA'" in rets
-    ctx.ob("C19.P2", gn.qualname, ok, "a record's key is its leading name, else DATA" if ok else f"get_name_from_format returns {rets}", where=gn.where)
+    _codec.agree(ctx, "C19.P2", gn, REF_KEYS["get_name_from_format"], {"returns": "a record's key is its leading name, else DATA", "raises": "a non-list format has no record name"}, key_prefix="record-name ")
     ai = repo.method("Array", "__init__", inherited=False)
     ctx.touch(ai)
     acfg = cfg_of(ai.node)
